@@ -5,6 +5,7 @@ import (
 	"fmt"
 	"io"
 	"os"
+	"path"
 	"path/filepath"
 	"runtime/debug"
 	"sort"
@@ -41,6 +42,7 @@ type Scenario struct {
 	// C17
 	FailModule int    // index of the file that fails (-1: none)
 	FailKind   string // "gen-reserved", "gen-goname" or "compile"
+	StaleOut   bool // C17: the package directories below --out hold files of an earlier generation
 	// DotDotName: the root Thrift file is called "...thrift" (its module name is ".."): whether
 	// such a run fails is not for the check to say, only that nothing leaves the output directory
 	DotDotName bool
@@ -260,7 +262,16 @@ func genScenario(o world.Opts) *Scenario {
 	} else if simrt.Flip("c16.host-fault", 0.2) {
 		// the host itself has a reason to fail, next to whatever the plugins do: every
 		// plugin it has started by then must still be told goodbye and reaped
-		switch simrt.Choice("c16.host-fault-kind", 4) {
+		switch simrt.Choice("c16.host-fault-kind", 5) {
+		case 4:
+			// one plugin answers with one file under two spellings: its own answer collides with itself
+			if np >= 1 {
+				a := simrt.Choice("c16.self-conflict", np)
+				sc.Plugins[a].Files = append(sc.Plugins[a].Files,
+					GenFile{Path: "plug_twice/extra.go", Content: "package plug\n"},
+					GenFile{Path: []string{"./plug_twice/extra.go", "plug_twice//extra.go", "/plug_twice/extra.go"}[simrt.Choice("c16.self-conflict-spelling", 3)], Content: "package plug // again\n"})
+				sc.Conflict = [2]int{a + 1, a + 1}
+			}
 		case 3:
 			// two plugins answer with one file: the host refuses the second answer while the
 			// others are still being collected - and must still end every plugin it started
@@ -411,6 +422,18 @@ func RunOne(cfg simrt.Config, o world.Opts) *world.Result {
 		}
 		if err := writeProgram(env, sc.Prog); err != nil {
 			panic(err)
+		}
+		if sc.StaleOut {
+			// the output directory was generated into before, by an older version of the tool:
+			// every package directory holds files of that time (whatever happens to them in a run
+			// that succeeds, a run that fails leaves them alone)
+			for _, c := range corePaths(sc) {
+				dir := filepath.Join(env.Out, filepath.FromSlash(path.Dir(cleanRel(c))))
+				if strings.HasPrefix(dir, env.Out) && os.MkdirAll(dir, 0755) == nil {
+					os.WriteFile(filepath.Join(dir, "versioncheck.go"), []byte("package stale // written by an older version\n"), 0644)
+					os.WriteFile(filepath.Join(dir, "types_old.go"), []byte("package stale\n"), 0644)
+				}
+			}
 		}
 		before = world.Snapshot(env.Root)
 		mains := map[string]map[int]func(p *simrt.Process) int{} // name -> instance -> main
